@@ -189,6 +189,11 @@ class Http3TransportWebsocket(AbstractMessagingTransport):
                     logger().debug('Websocket disconnected')
                     self._disconnect_event.set_result(True)
                     break
+                except KeyError:
+                    continue  # a text message: the ASGI event has no 'bytes'
+
+                if not isinstance(data, (bytes, bytearray)):
+                    continue
 
                 async for frame in self._frame_parser.receive_data(data, 0):
                     self._incoming_frame_queue.put_nowait(frame)
